@@ -266,7 +266,8 @@ def gen_e2e(rng, force=None):
                 outs=outs, mint=mint, scripts=scripts, wdrl=wdrl, certs=certs, pool_initial=initial, props=props,
                 donation=donation, change=change, merge=merge,
                 fee_buffer=rng.choice([None, None, None, 0, 1000, 70000]),
-                treasury=rng.choice([None, 10 ** 15]))
+                treasury=rng.choice([None, 10 ** 15]),
+                order=rng.sample(range(11), 11) if rng.random() < 0.6 else None)
     # fund the wallet so that most scenarios build: one more UTxO covering deposits, donation, outputs
     seen = set()
     need = sum(cert_net(c, pp, initial, seen) for c in (certs or [])) + sum(p[0] for p in props) + (donation or 0) \
@@ -605,7 +606,7 @@ def correspond(ctx, sizes=None):
              '0..4 requested outputs (with tokens, at the change address, zero lovelace), mint and burn (with and without native '
              'scripts), 0..2 withdrawals, 0..6 certificates of every kind incl. equal-coin registrations, deregistrations, DRep '
              'reg/unreg, pool registration initial/not and repeated, 0..3 proposals incl. a repeated one, donation, merge_change '
-             'on/off, fee_buffer, 9 protocol-parameter sets (fee 0 .. > 2^32, max_val_size 100..5000, coins_per_utxo_byte 1000..100000, '
+             'on/off, fee_buffer, random order of the builder calls, 9 protocol-parameter sets (fee 0 .. > 2^32, max_val_size 100..5000, coins_per_utxo_byte 1000..100000, '
              'deposits 0..5e8); slice scenarios for _calc_change (all UTxOs as inputs, random fee, respect_min_utxo on/off) and '
              '_pack_tokens_for_change (max_val_size 30..5000); non-trivial = build returned a body / _calc_change returned '
              'outputs / packing returned; distinct by hash',
